@@ -193,6 +193,22 @@ def case_arith(c):
                       % (d, g, sorted(allowed), spb * P), site='backend.get_total_obs_num_samples')
             except Exception as e:
                 V('raised', '%s: %s' % (type(e).__name__, e), site='backend.get_total_obs_num_samples')
+            # the level helper resolves a duration to the whole blocks the backend records: the same level as for that block count
+            try:
+                lv_d = level_utils.get_level(10.0, be, 1, obs_length=d, length_mode='obs_length')
+                lv_b = []
+                for a in sorted(allowed):
+                    try:
+                        lv_b.append(level_utils.get_level(10.0, be, 1, num_blocks=a, length_mode='num_blocks'))
+                    except ZeroDivisionError:
+                        lv_b.append(float('inf'))
+                if lv_b and not any(lv_d == x for x in lv_b):
+                    V('get_level_duration', 'get_level(obs_length=%r)=%r; for the %s block(s) the backend records it is %s'
+                      % (d, lv_d, sorted(allowed), lv_b), site='level_utils.get_level')
+            except ZeroDivisionError:
+                pass
+            except Exception as e:
+                V('raised', '%s: %s' % (type(e).__name__, e), site='level_utils.get_level')
             outcomes.add('dur%s' % ('near' if near else 'far'))
     # helpers tied to fine channelisation
     for N in c['fft']:
